@@ -32,7 +32,11 @@ type caseRec struct {
 	Payload value.V         `json:"payload"`
 	Result  value.V         `json:"result"`
 	Accept  map[string]bool `json:"accept"`
-	Message string          `json:"message"`
+	// UseGranted: the callbacks enforce the required scopes with goa's
+	// scheme.Validate(Granted)
+	UseGranted bool     `json:"use_granted,omitempty"`
+	Granted    []string `json:"granted,omitempty"`
+	Message    string   `json:"message"`
 	// Stream scripts the call when the method is a streaming endpoint
 	Stream *harness.StreamSpec `json:"stream,omitempty"`
 }
@@ -136,6 +140,49 @@ func checkMethod(t *testing.T, b *rt.Built, s *m.Service, meth *m.Method) bool {
 					c.Accept[sc.Name] = true
 				}
 			}
+			// half of the cases: the caller holds a set of scopes and the callbacks
+			// check the required ones with scheme.Validate
+			if rapid.Bool().Draw(rt_, "useGranted") {
+				c.UseGranted = true
+				var all []string
+				seenScope := map[string]bool{}
+				for _, sc := range d.Schemes {
+					for _, x := range sc.Scopes {
+						if !seenScope[x] {
+							seenScope[x] = true
+							all = append(all, x)
+						}
+					}
+				}
+				switch rapid.IntRange(0, 4).Draw(rt_, "grantedKind") {
+				case 0:
+					c.Granted = all
+				case 1:
+				case 2:
+					// all but one of the scopes some requirement asks for
+					var multi [][]string
+					for _, r := range reqs {
+						if len(r.Scopes) >= 2 {
+							multi = append(multi, r.Scopes)
+						}
+					}
+					if len(multi) > 0 {
+						sc := rapid.SampledFrom(multi).Draw(rt_, "scopesOf")
+						drop := rapid.IntRange(0, len(sc)-1).Draw(rt_, "dropScope")
+						for i, x := range sc {
+							if i != drop {
+								c.Granted = append(c.Granted, x)
+							}
+						}
+					}
+				default:
+					for _, x := range all {
+						if rapid.Bool().Draw(rt_, "granted:"+x) {
+							c.Granted = append(c.Granted, x)
+						}
+					}
+				}
+			}
 			msg := runCase(b, s, meth, c)
 			record(d, s, meth, c)
 			if msg != "" {
@@ -153,13 +200,30 @@ func checkMethod(t *testing.T, b *rt.Built, s *m.Service, meth *m.Method) bool {
 }
 
 // reference: does some requirement have all its schemes accepted?
-func allowed(reqs []m.Requirement, accept map[string]bool) (bool, int) {
+func subset(need, have []string) bool {
+	for _, n := range need {
+		found := false
+		for _, h := range have {
+			found = found || h == n
+		}
+		if !found {
+			return false
+		}
+	}
+	return true
+}
+
+func allowed(reqs []m.Requirement, c *caseRec) (bool, int) {
+	accept := c.Accept
 	for i, r := range reqs {
 		ok := true
 		for _, s := range r.Schemes {
 			if !accept[s] {
 				ok = false
 			}
+		}
+		if c.UseGranted && !subset(r.Scopes, c.Granted) {
+			ok = false
 		}
 		if ok {
 			return true, i
@@ -170,7 +234,7 @@ func allowed(reqs []m.Requirement, accept map[string]bool) (bool, int) {
 
 func record(d *m.Design, s *m.Service, meth *m.Method, c *caseRec) {
 	reqs := gen.EffectiveSecurity(d, s, meth)
-	ok, idx := allowed(reqs, c.Accept)
+	ok, idx := allowed(reqs, c)
 	nt := false
 	if len(reqs) > 0 {
 		if ok && idx > 0 {
@@ -186,6 +250,20 @@ func record(d *m.Design, s *m.Service, meth *m.Method, c *caseRec) {
 		if len(meth.Security) == 0 {
 			nt = true
 			stats.Class("inherited-requirements")
+		}
+	}
+	if c.UseGranted {
+		stats.Class("callbacks-enforce-scopes-with-Validate")
+		for _, r := range reqs {
+			if len(r.Scopes) >= 2 && !subset(r.Scopes, c.Granted) {
+				for _, x := range r.Scopes {
+					if subset([]string{x}, c.Granted) {
+						nt = true
+						stats.Class("some-but-not-all-required-scopes-granted")
+						break
+					}
+				}
+			}
 		}
 	}
 	switch {
@@ -220,7 +298,7 @@ func runCase(b *rt.Built, s *m.Service, meth *m.Method, c *caseRec) string {
 	d := b.Design
 	hc := &harness.Case{Op: "call", Svc: s.Name, Method: meth.Name, HasPayload: meth.Payload != nil, Payload: c.Payload}
 	hc.Stub = harness.StubSpec{HasResult: meth.Result != nil, Result: c.Result, View: "default"}
-	hc.Auth = &harness.AuthSpec{Accept: c.Accept}
+	hc.Auth = &harness.AuthSpec{Accept: c.Accept, UseGranted: c.UseGranted, Granted: c.Granted}
 	hc.Stream = c.Stream
 	if meth.Streaming != "" {
 		hc.Stub.HasResult = meth.Streaming == "payload" && meth.Result != nil
@@ -257,7 +335,7 @@ func runCase(b *rt.Built, s *m.Service, meth *m.Method, c *caseRec) string {
 		}
 		return ""
 	}
-	want, _ := allowed(reqs, c.Accept)
+	want, _ := allowed(reqs, c)
 	ran := obs.StubCalls == 1
 	if obs.StubCalls > 1 {
 		return fmt.Sprintf("method invoked %d times", obs.StubCalls)
@@ -302,7 +380,15 @@ func runCase(b *rt.Built, s *m.Service, meth *m.Method, c *caseRec) string {
 			return fmt.Sprintf("callback for scheme %q ran although no effective requirement uses it (requirements %+v)", ac.Scheme, reqs)
 		}
 		sc := gen.SchemeByName(d, ac.Scheme)
-		if ac.Accept != c.Accept[ac.Scheme] {
+		if c.UseGranted {
+			if !ac.Validated {
+				return fmt.Sprintf("scheme %q: the scheme passed to the callback has no Validate([]string) error method", ac.Scheme)
+			}
+			if has := subset(ac.Req, c.Granted); has != (ac.ValidateErr == "") {
+				return fmt.Sprintf("scheme %q: Validate(%v) with required scopes %v returned %q; it must fail exactly when a required scope is not granted", ac.Scheme, c.Granted, ac.Req, ac.ValidateErr)
+			}
+		}
+		if ac.Accept != (c.Accept[ac.Scheme] && (!c.UseGranted || ac.ValidateErr == "")) {
 			return "harness inconsistency: callback outcome"
 		}
 		// declared scopes
